@@ -129,6 +129,12 @@ class Gamma(object):
             return True, "the {}, one of `sgd` or `adam`".format(name)
         if c == "trig_default":
             return True, "the {}. Default: 5".format(name)
+        if c == "doc_colon":
+            return True, "the {}: see below".format(name)
+        if c == "doc_paren":
+            return True, "the {} (in bytes)".format(name)
+        if c == "doc_question":
+            return True, "is {} set?".format(name)
         if c == "residue":
             return True, "the {}. Defaults to".format(name)
         if c == "pk":
